@@ -45,6 +45,14 @@ CLAIMED = {
              "padding 0-1, dilation 1-2, C,F in {1,2}. Lateral: zero diagonal of weight and delay after tensor/Parameter/expression assignment and "
              "after updater application. Helpers: like_input(like_synaptic(x)) == x on read positions; pre/post receptive views place elements as documented.",
         ref="6/C05"),
+    "C13": dict(
+        text="Temporal setters (dt, duration, inclusive) on records whose contents are symbolic markers: size formula (native float arithmetic, incl. "
+             "non-representable ratios), the newest min(old,new) observations stay at the same steps-before-present positions, older new slots are zero, "
+             "the next push overwrites only the oldest slot; all single-setter changes with size <= 4 (6 thorough) from pointers {0,1,N-1} (all), buffer and "
+             "Parameter storage, and 3-setter sequences incl. None/empty/Uninitialized storage. Shape-constraint edits on records (tail preserved, head "
+             "zero). ShapedTensor bookkeeping: all 2-call (3 thorough) reconstrain programs over dims in [-rank,rank], sizes {None,1,2,3}, strict and not: "
+             "valid => every constraint holds; incompatible addition refused without side effects; removal never alters data.",
+        ref="6/C13"),
 }
 
 REASONS = {}
